@@ -381,6 +381,25 @@ fn main() {
             s.maxdepth = ju(case, "maxdepth", 3);
             run_script(case, s)
         }
+        "flow_mclmc" => {
+            let mut s = nuts_rs::FlowMclmcSettings::default();
+            s.num_tune = ju(case, "num_tune", 5);
+            s.num_draws = ju(case, "num_draws", 5);
+            s.num_chains = ju(case, "num_chains", 2) as usize;
+            s.seed = ju(case, "seed", 1);
+            s.step_size = 0.25;
+            s.adapt_options.step_size_settings.adapt_options.method = nuts_rs::StepSizeAdaptMethod::Fixed(0.25);
+            run_script(case, s)
+        }
+        "flow_nuts" => {
+            let mut s = nuts_rs::FlowNutsSettings::default();
+            s.num_tune = ju(case, "num_tune", 5);
+            s.num_draws = ju(case, "num_draws", 5);
+            s.num_chains = ju(case, "num_chains", 2) as usize;
+            s.seed = ju(case, "seed", 1);
+            s.maxdepth = ju(case, "maxdepth", 3);
+            run_script(case, s)
+        }
         "lowrank_mclmc" => {
             let mut s = nuts_rs::LowRankMclmcSettings::default();
             s.num_tune = ju(case, "num_tune", 5);
